@@ -317,9 +317,13 @@ func checkProgram(r *engine.Run, key string, p *js.Program) bool {
 		return false
 	}
 	dumpCase(r, key, src, expG, expE)
+	// announce the case (crash attribution) without arming the engine's
+	// wall-clock watchdog; the CPU-time guard covers a looping implementation
 	r.Begin(key)
-	obs := observe(src)
 	r.End()
+	armGuard(r.Family(), key)
+	obs := observe(src)
+	disarmGuard()
 	gs, es := expG.String(), expE.String()
 	nontrivial := len(expG.Log) > 0 || expG.Exc != "" || expG.Completion != "u"
 	r.Eval(nontrivial)
